@@ -604,32 +604,192 @@ Record gc_safe_spec (now grace timeout : Z) (snaps : list string) (st : store) (
 Lemma wf_store_markers : forall snaps st, wf_store snaps st -> markers_wf st.
 Proof. intros snaps st W mk ob t. apply (wf_markers _ _ W). Qed.
 
-Theorem gc_safe_all_faults : forall tp grace now timeout o snaps st,
-  wf_store snaps st -> gc_safe_spec now grace timeout snaps st (gc_run tp grace now timeout o snaps st).
+(* ---- reachability phase, as a unit *)
+Lemma reach_store : forall tp o snaps g res g', reach tp o snaps g = (res, g') -> g_store g' = g_store g.
 Proof.
-  intros tp grace now timeout o snaps st WF. unfold gc_run, gc_run_from.
-  remember (mkG 0 st []) as g0 eqn:Eg0. assert (S0: g_store g0 = st) by (subst g0; reflexivity). clear Eg0.
-  assert (TRIV: forall out rl rm rd pr g, g_store g = st ->
-            gc_safe_spec now grace timeout snaps st (mkR out [] rl rm rd pr g)).
-  { intros out rl0 rm0 rd0 pr g H. constructor; cbn [r_deleted r_final r_out].
-    - intros _. reflexivity.
-    - intros k [].
-    - intros k ob L N. rewrite H in N. congruence.
-    - rewrite H. apply store_le_refl.
-    - intros mk ob L M k D []. }
-  destruct (read_all WList o g0 (norm_set tp snaps)) as [[mpaths|] g1] eqn:RL.
-  2:{ apply TRIV. rewrite (read_all_store _ _ _ _ _ _ RL). exact S0. }
-  destruct (read_all WManifest o g1 (norm_set tp mpaths)) as [[entries|] g2] eqn:RM.
-  2:{ apply TRIV. rewrite (read_all_store _ _ _ _ _ _ RM), (read_all_store _ _ _ _ _ _ RL). exact S0. }
-  assert (S2: g_store g2 = st) by (eapply g2_store; eauto).
-  destruct (load_protection tp timeout now o g2) as [[prot|] g3] eqn:LP.
-  2:{ apply TRIV. unfold load_protection in LP. destruct (do_listdir o g2 INFLIGHT_PATH) as [[ms|] gx] eqn:EL.
-      - destruct (markers_loop tp (now - timeout) o gx ms []); discriminate.
-      - inversion LP; subst. rewrite (do_listdir_store _ _ _ _ _ EL). exact S2. }
-  apply load_protection_spec in LP; [|rewrite S2; eapply wf_store_markers; eauto]. rewrite S2 in LP.
-  destruct LP as [P1 [P2 [P3 P4]]].
-  set (rl := norm_set tp snaps) in *. set (rm := norm_set tp mpaths) in *. set (rd := map (normalize_path tp) entries) in *.
-  (* facts used for both sweeps *)
+  intros tp o snaps g res g' H. unfold reach in H.
+  destruct (read_all WList o g (norm_set tp snaps)) as [[mp|] g1] eqn:RL; pose proof (read_all_store _ _ _ _ _ _ RL) as S1.
+  - destruct (read_all WManifest o g1 (norm_set tp mp)) as [[es|] g2] eqn:RM; pose proof (read_all_store _ _ _ _ _ _ RM) as S2;
+      inversion H; subst; congruence.
+  - inversion H; subst; congruence.
+Qed.
+
+Record reach_ok_spec (snaps : list string) (st : store) (rl rm rd : list key) : Prop := {
+  rc_lists : forall k, ref_list snaps k -> In k rl;
+  rc_manifests : forall k, ref_manifest snaps st k -> In k rm;
+  rc_data : forall k, ref_data snaps st k -> In k rd;
+  rx_lists : forall k, In k rl -> ref_list snaps k;
+  rx_manifests : forall k, In k rm -> ref_manifest snaps st k;
+  rx_data : forall k, In k rd -> ref_data snaps st k
+}.
+
+Lemma reach_ok : forall tp o snaps g rl rm rd g',
+  wf_store snaps (g_store g) -> reach tp o snaps g = (ROk rl rm rd, g') -> reach_ok_spec snaps (g_store g) rl rm rd.
+Proof.
+  intros tp o snaps g rl rm rd g' WF H. unfold reach in H.
+  destruct (read_all WList o g (norm_set tp snaps)) as [[mp|] g1] eqn:RL; [|discriminate].
+  destruct (read_all WManifest o g1 (norm_set tp mp)) as [[es|] g2] eqn:RM; [|discriminate].
+  inversion H; subst. constructor.
+  - exact (lists_complete tp snaps (g_store g) WF).
+  - exact (manifests_complete tp snaps (g_store g) WF o g g1 mp eq_refl RL).
+  - exact (data_complete tp snaps (g_store g) WF o g g1 mp eq_refl RL g' es RM).
+  - exact (lists_exact tp snaps (g_store g) WF).
+  - exact (manifests_exact tp snaps (g_store g) WF o g g1 mp eq_refl RL).
+  - exact (data_exact tp snaps (g_store g) WF o g g1 mp eq_refl RL g' es RM).
+Qed.
+
+(* ---- what the marker phase may have removed does not matter to reachability *)
+Definition only_markers_removed (now timeout : Z) (st st1 : store) : Prop :=
+  store_le st1 st /\ forall k ob, lookup k st = Some ob -> lookup k st1 = None -> mtime ob < now - timeout /\ is_marker_key k.
+
+Lemma omr_refl : forall now timeout st, only_markers_removed now timeout st st.
+Proof. intros. split; [apply store_le_refl|intros; congruence]. Qed.
+
+Lemma marker_key_not_manifests : forall k, is_marker_key k -> startswith "metadata/manifests/" k = true -> False.
+Proof. intros k [M _] H. pose proof (marker_not_manifests k M) as N. change (MANIFESTS_PREFIX ++ "/") with "metadata/manifests/" in N. congruence. Qed.
+
+Lemma omr_keeps_meta : forall now timeout st st1 k ob, only_markers_removed now timeout st st1 ->
+  lookup k st = Some ob -> startswith "metadata/manifests/" k = true -> lookup k st1 = Some ob.
+Proof.
+  intros now timeout st st1 k ob [LE RM] L H. destruct (lookup k st1) as [ob1|] eqn:E.
+  - apply LE in E. congruence.
+  - exfalso. destruct (RM k ob L E) as [_ M]. eapply marker_key_not_manifests; eauto.
+Qed.
+
+Lemma referenced_transfer : forall now timeout snaps st st1, wf_store snaps st -> only_markers_removed now timeout st st1 ->
+  (forall k, ref_manifest snaps st k -> ref_manifest snaps st1 k) /\ (forall k, ref_data snaps st k -> ref_data snaps st1 k).
+Proof.
+  intros now timeout snaps st st1 WF O.
+  assert (LA: forall l ms, In l snaps -> nonempty l = true -> list_at st (resolve l) ms -> list_at st1 (resolve l) ms).
+  { intros l ms H1 H2 [ob [L B]]. exists ob. split; [|exact B]. eapply omr_keeps_meta; eauto. exact (wf_snaps _ _ WF l H1 H2). }
+  split.
+  - intros k [l [ms [m [H1 [H2 [H3 [H4 [H5 E]]]]]]]]. exists l, ms, m. repeat split; auto.
+  - intros k [l [ms [m [es [e [H1 [H2 [H3 [H4 [H5 [H6 [H7 E]]]]]]]]]]]]. exists l, ms, m, es, e. repeat split; auto.
+    destruct H3 as [ob [L B]]. destruct H6 as [ob2 [L2 B2]]. exists ob2. split; [|exact B2].
+    eapply omr_keeps_meta; eauto. exact (wf_lists _ _ WF _ _ _ _ L B H4 H5).
+Qed.
+
+Lemma wf_store_le : forall snaps st st1, wf_store snaps st -> store_le st1 st -> NoDup (map fst st1) -> wf_store snaps st1.
+Proof.
+  intros snaps st st1 [W1 W2 W3 W4 W5] LE ND. constructor; auto.
+  - intros k ob ms m L. apply LE in L. eauto.
+  - intros k ob es e L. apply LE in L. eauto.
+  - intros mk ob t L. apply LE in L. eauto.
+Qed.
+
+(* ---- the store after any phase is a filter of the store before (keys stay distinct) *)
+Definition sub_store (a b : store) : Prop := exists f, a = filter f b.
+Lemma sub_refl : forall a, sub_store a a.
+Proof. intro a. exists (fun _ => true). induction a; simpl; congruence. Qed.
+Lemma sub_trans : forall a b c, sub_store a b -> sub_store b c -> sub_store a c.
+Proof.
+  intros a b c [f ->] [g ->]. exists (fun x => g x && f x). induction c as [|x r IH]; simpl; [reflexivity|].
+  destruct (g x); simpl; [destruct (f x); simpl; congruence|exact IH].
+Qed.
+Lemma sub_remove : forall k st, sub_store (remove_key k st) st.
+Proof. intros. eexists. reflexivity. Qed.
+Lemma sub_eq : forall a b, a = b -> sub_store a b.
+Proof. intros a b ->. apply sub_refl. Qed.
+
+Lemma NoDup_map_filter : forall (st : store) f, NoDup (map fst st) -> NoDup (map fst (filter f st)).
+Proof.
+  intros st f. induction st as [|p r IH]; simpl; intro H; [constructor|]. inversion H; subst.
+  destruct (f p); simpl; [constructor|]; auto.
+  intro Hin. apply H2. apply in_map_iff in Hin. destruct Hin as [q [E Hq]]. apply filter_In in Hq. apply in_map_iff. exists q. tauto.
+Qed.
+
+Lemma sub_nodup : forall a b, sub_store a b -> NoDup (map fst b) -> NoDup (map fst a).
+Proof. intros a b [f ->] H. apply NoDup_map_filter. exact H. Qed.
+
+Lemma do_delete_sub : forall o g k r g', do_delete o g k = (r, g') -> sub_store (g_store g') (g_store g).
+Proof.
+  intros o g k [u|] g' H.
+  - rewrite (do_delete_some _ _ _ _ _ H). apply sub_remove.
+  - rewrite (do_delete_none _ _ _ _ H). apply sub_refl.
+Qed.
+
+Lemma markers_loop_sub : forall tp cutoff o ms g prot prot' g',
+  markers_loop tp cutoff o g ms prot = (prot', g') -> sub_store (g_store g') (g_store g).
+Proof.
+  intros tp cutoff o ms. induction ms as [|mp r IH]; intros g prot prot' g' H; simpl in H.
+  - inversion H; subst. apply sub_refl.
+  - destruct (do_stat o g (normalize_path tp mp)) as [st_ g1] eqn:ES. pose proof (do_stat_store _ _ _ _ _ ES) as S1.
+    destruct (negb (endswith INFLIGHT_SUFFIX (basename (normalize_path tp mp)))).
+    { apply IH in H. rewrite S1 in H. exact H. }
+    destruct (marker_targets tp o g1 (normalize_path tp mp) (basename (normalize_path tp mp))) as [T g2] eqn:ET.
+    pose proof (marker_targets_store _ _ _ _ _ _ _ ET) as S2.
+    destruct (match st_ with Some t => cutoff <=? t | None => true end).
+    { apply IH in H. rewrite S2, S1 in H. exact H. }
+    destruct (do_delete o g2 (normalize_path tp mp)) as [[u|] g3] eqn:ED; apply do_delete_sub in ED; apply IH in H;
+      rewrite S2, S1 in ED; eapply sub_trans; eauto.
+Qed.
+
+Lemma load_protection_sub : forall tp timeout now o g r g', load_protection tp timeout now o g = (r, g') -> sub_store (g_store g') (g_store g).
+Proof.
+  intros tp timeout now o g r g' H. unfold load_protection in H.
+  destruct (do_listdir o g INFLIGHT_PATH) as [[ms|] gx] eqn:EL; pose proof (do_listdir_store _ _ _ _ _ EL) as S1.
+  - destruct (markers_loop tp (now - timeout) o gx ms []) as [p gy] eqn:EM. injection H as _ Eg. rewrite <- Eg.
+    apply markers_loop_sub in EM. rewrite S1 in EM. exact EM.
+  - injection H as _ Eg. rewrite <- Eg. apply sub_eq. exact S1.
+Qed.
+
+Lemma sweep_loop_sub : forall tp cutoff keep o ks g dels b dels' g',
+  sweep_loop tp cutoff keep o g ks dels = (b, dels', g') -> sub_store (g_store g') (g_store g).
+Proof.
+  intros tp cutoff keep o ks. induction ks as [|k r IH]; intros g dels b dels' g' H; simpl in H.
+  - inversion H; subst. apply sub_refl.
+  - destruct (escapes (normalize_path tp k)); [inversion H; subst; apply sub_refl|].
+    destruct (str_mem (normalize_path tp k) keep); [eapply IH; eauto|].
+    destruct (do_stat o g k) as [[t|] g1] eqn:ES; pose proof (do_stat_store _ _ _ _ _ ES) as S1.
+    2:{ apply IH in H. rewrite S1 in H. exact H. }
+    destruct (t <? cutoff).
+    2:{ apply IH in H. rewrite S1 in H. exact H. }
+    destruct (do_delete o g1 k) as [[u|] g2] eqn:ED; apply do_delete_sub in ED; apply IH in H; rewrite S1 in ED; eapply sub_trans; eauto.
+Qed.
+
+Lemma sweep_sub : forall tp grace now keep o g prefix dels b dels' g',
+  sweep tp grace now keep o g prefix dels = (b, dels', g') -> sub_store (g_store g') (g_store g).
+Proof.
+  intros tp grace now keep o g prefix dels b dels' g' H. unfold sweep in H.
+  destruct (do_listdir o g prefix) as [[ks|] g1] eqn:EL; pose proof (do_listdir_store _ _ _ _ _ EL) as S1.
+  - apply sweep_loop_sub in H. rewrite S1 in H. exact H.
+  - inversion H; subst. rewrite S1. apply sub_refl.
+Qed.
+
+Lemma sweeps_sub : forall tp grace now o rl rm rd prot g, sub_store (g_store (r_final (sweeps tp grace now o rl rm rd prot g))) (g_store g).
+Proof.
+  intros. unfold sweeps.
+  destruct (sweep tp grace now (rd ++ prot) o g DATA_PREFIX []) as [[b1 d1] g4] eqn:SW1. apply sweep_sub in SW1.
+  destruct b1; [exact SW1|].
+  destruct (sweep tp grace now ((rm ++ rl) ++ prot) o g4 MANIFESTS_PREFIX d1) as [[b2 d2] g5] eqn:SW2. apply sweep_sub in SW2.
+  destruct b2; cbn [r_final]; eapply sub_trans; eauto.
+Qed.
+
+Lemma gc_run_from_sub : forall mf tp grace now timeout o snaps g0,
+  sub_store (g_store (r_final (gc_run_from mf tp grace now timeout o snaps g0))) (g_store g0).
+Proof.
+  intros. unfold gc_run_from. destruct mf.
+  - destruct (load_protection tp timeout now o g0) as [[prot|] g1] eqn:LP; pose proof (load_protection_sub _ _ _ _ _ _ _ LP) as S1; [|exact S1].
+    destruct (reach tp o snaps g1) as [[ph rl rm|rl rm rd] g2] eqn:RE; pose proof (reach_store _ _ _ _ _ _ RE) as S2.
+    + cbn [r_final]. rewrite S2. exact S1.
+    + eapply sub_trans; [apply sweeps_sub|]. rewrite S2. exact S1.
+  - destruct (reach tp o snaps g0) as [[ph rl rm|rl rm rd] g1] eqn:RE; pose proof (reach_store _ _ _ _ _ _ RE) as S1.
+    + cbn [r_final]. apply sub_eq. exact S1.
+    + destruct (load_protection tp timeout now o g1) as [[prot|] g2] eqn:LP; pose proof (load_protection_sub _ _ _ _ _ _ _ LP) as S2.
+      * eapply sub_trans; [apply sweeps_sub|]. rewrite <- S1. exact S2.
+      * cbn [r_final]. rewrite <- S1. exact S2.
+Qed.
+
+(* ---- the sweeps delete only what is safe, given complete reachability and protection *)
+Lemma sweeps_safe : forall tp grace now timeout o snaps st rl rm rd prot g,
+  wf_store snaps st ->
+  only_markers_removed now timeout st (g_store g) ->
+  (forall k, ref_list snaps k -> In k rl) -> (forall k, ref_manifest snaps st k -> In k rm) -> (forall k, ref_data snaps st k -> In k rd) ->
+  (forall mk ob, lookup mk (g_store g) = Some ob -> is_marker_key mk -> forall k, marker_denotes mk ob k -> In k prot) ->
+  (forall k, live_target now timeout st k -> In k prot) ->
+  gc_safe_spec now grace timeout snaps st (sweeps tp grace now o rl rm rd prot g).
+Proof.
+  intros tp grace now timeout o snaps st rl rm rd prot g3 WF [P1 P3] CL CM CD P2 P4. unfold sweeps.
   assert (MW: markers_wf st) by (eapply wf_store_markers; eauto).
   assert (LIVE: forall k, live_target now timeout st k -> table_relative k /\ In k prot).
   { intros k Hl. split; [|auto]. destruct Hl as [mk [ob [L [M [F D]]]]]. eapply marker_denotes_relative; eauto. }
@@ -646,8 +806,7 @@ Proof.
     - intros [R|[R|R]].
       + apply (ref_list_meta snaps st WF) in R. destruct Hpre as [Hp| ->]; [eapply data_meta_disjoint; eauto|discriminate].
       + apply (ref_manifest_meta snaps st WF) in R. destruct Hpre as [Hp| ->]; [eapply data_meta_disjoint; eauto|discriminate].
-      + assert (In k rd) by (exact (data_complete tp snaps st WF o g0 g1 mpaths S0 RL g2 entries RM k R)).
-        apply (NOKEEP k (rd ++ prot)%list); [left; eapply ref_data_data; eauto|apply in_or_app; auto|exact Hm].
+      + apply (NOKEEP k (rd ++ prot)%list); [left; eapply ref_data_data; eauto|apply in_or_app; auto|exact Hm].
     - intro Hl. destruct (LIVE k Hl) as [TR Hin]. apply (NOKEEP k (rd ++ prot)%list); [exact TR|apply in_or_app; auto|exact Hm].
     - exists ob. split; [apply P1; exact L|exact Old]. }
   assert (MK1: forall g mk ob k, store_le (g_store g) (g_store g3) -> lookup mk (g_store g) = Some ob -> is_marker_key mk ->
@@ -671,10 +830,8 @@ Proof.
       ~ referenced snaps st k /\ ~ live_target now timeout st k /\ exists ob, lookup k st = Some ob /\ mtime ob < now - grace).
   { intros k Hk. destruct (B2 k Hk) as [Hin1|[Hpre [Hm [ob [L Old]]]]]; [auto|]. split; [|split].
     - intros [R|[R|R]].
-      + assert (In k rl) by (exact (lists_complete tp snaps st WF k R)).
-        apply (NOKEEP k ((rm ++ rl) ++ prot)%list); [right; eapply ref_list_meta; eauto|apply in_or_app; left; apply in_or_app; auto|exact Hm].
-      + assert (In k rm) by (exact (manifests_complete tp snaps st WF o g0 g1 mpaths S0 RL k R)).
-        apply (NOKEEP k ((rm ++ rl) ++ prot)%list); [right; eapply ref_manifest_meta; eauto|apply in_or_app; left; apply in_or_app; auto|exact Hm].
+      + apply (NOKEEP k ((rm ++ rl) ++ prot)%list); [right; eapply ref_list_meta; eauto|apply in_or_app; left; apply in_or_app; auto|exact Hm].
+      + apply (NOKEEP k ((rm ++ rl) ++ prot)%list); [right; eapply ref_manifest_meta; eauto|apply in_or_app; left; apply in_or_app; auto|exact Hm].
       + apply (ref_data_data snaps st WF) in R. destruct Hpre as [Hp| ->]; [|discriminate].
         eapply data_meta_disjoint; [exact R|].
         change (MANIFESTS_PREFIX ++ "/") with ("metadata/" ++ "manifests/") in Hp. eapply startswith_trans_app; exact Hp.
@@ -694,6 +851,70 @@ Proof.
       + destruct (KEEPM g5 mk ob k L5 L M D) as [TR Hin]. apply (NOKEEP k ((rm ++ rl) ++ prot)%list); [exact TR|apply in_or_app; auto|exact Hm]. }
   destruct b2; exact FIN.
 Qed.
+
+(* a result that deleted nothing, whose store lost at most abandoned markers *)
+Lemma nothing_deleted_safe : forall now grace timeout snaps st out rl rm rd pr g,
+  only_markers_removed now timeout st (g_store g) -> gc_safe_spec now grace timeout snaps st (mkR out [] rl rm rd pr g).
+Proof.
+  intros now grace timeout snaps st out rl rm rd pr g [LE RM]. constructor; cbn [r_deleted r_final r_out].
+  - intros _. reflexivity.
+  - intros k [].
+  - intros k ob L N. right. eauto.
+  - exact LE.
+  - intros mk ob L M k D [].
+Qed.
+
+Lemma load_protection_omr : forall tp timeout now o g prot g', load_protection tp timeout now o g = (Some prot, g') ->
+  markers_wf (g_store g) -> only_markers_removed now timeout (g_store g) (g_store g').
+Proof. intros tp timeout now o g prot g' H W. apply load_protection_spec in H; [|exact W]. destruct H as [P1 [_ [P3 _]]]. split; assumption. Qed.
+
+Lemma load_protection_none_store : forall tp timeout now o g g', load_protection tp timeout now o g = (None, g') -> g_store g' = g_store g.
+Proof.
+  intros tp timeout now o g g' LP. unfold load_protection in LP. destruct (do_listdir o g INFLIGHT_PATH) as [[ms|] gx] eqn:EL.
+  - destruct (markers_loop tp (now - timeout) o gx ms []); discriminate.
+  - inversion LP; subst. exact (do_listdir_store _ _ _ _ _ EL).
+Qed.
+
+Theorem gc_safe_from : forall mf tp grace now timeout o snaps g0,
+  wf_store snaps (g_store g0) -> gc_safe_spec now grace timeout snaps (g_store g0) (gc_run_from mf tp grace now timeout o snaps g0).
+Proof.
+  intros mf tp grace now timeout o snaps g0 WF. set (st := g_store g0) in *.
+  assert (MW: markers_wf st) by (eapply wf_store_markers; eauto).
+  unfold gc_run_from. destruct mf.
+  - (* in-flight protection first *)
+    destruct (load_protection tp timeout now o g0) as [[prot|] g1] eqn:LP.
+    2:{ apply nothing_deleted_safe. rewrite (load_protection_none_store _ _ _ _ _ _ LP). apply omr_refl. }
+    pose proof (load_protection_omr _ _ _ _ _ _ _ LP MW) as O1. fold st in O1.
+    pose proof (load_protection_sub _ _ _ _ _ _ _ LP) as SUB1.
+    apply load_protection_spec in LP; [|exact MW]. fold st in LP. destruct LP as [P1 [P2 [P3 P4]]].
+    destruct (reach tp o snaps g1) as [[ph rl rm|rl rm rd] g2] eqn:RE; pose proof (reach_store _ _ _ _ _ _ RE) as S2.
+    + apply nothing_deleted_safe. rewrite S2. exact O1.
+    + assert (WF1: wf_store snaps (g_store g1)) by (eapply wf_store_le; eauto; eapply sub_nodup; eauto; exact (wf_nodup _ _ WF)).
+      pose proof (reach_ok _ _ _ _ _ _ _ _ WF1 RE) as RC. destruct (referenced_transfer now timeout snaps st (g_store g1) WF O1) as [TM TD].
+      apply sweeps_safe with (timeout := timeout); auto.
+      * rewrite S2. exact O1.
+      * exact (rc_lists _ _ _ _ _ RC).
+      * intros k R. apply (rc_manifests _ _ _ _ _ RC). auto.
+      * intros k R. apply (rc_data _ _ _ _ _ RC). auto.
+      * rewrite S2. exact P2.
+  - (* reachability first *)
+    destruct (reach tp o snaps g0) as [[ph rl rm|rl rm rd] g1] eqn:RE; pose proof (reach_store _ _ _ _ _ _ RE) as S1.
+    + apply nothing_deleted_safe. rewrite S1. apply omr_refl.
+    + pose proof (reach_ok _ _ _ _ _ _ _ _ WF RE) as RC. fold st in RC.
+      destruct (load_protection tp timeout now o g1) as [[prot|] g2] eqn:LP.
+      2:{ apply nothing_deleted_safe. rewrite (load_protection_none_store _ _ _ _ _ _ LP), S1. apply omr_refl. }
+      assert (MW1: markers_wf (g_store g1)) by (rewrite S1; exact MW).
+      pose proof (load_protection_omr _ _ _ _ _ _ _ LP MW1) as O2. rewrite S1 in O2.
+      apply load_protection_spec in LP; [|exact MW1]. rewrite S1 in LP. destruct LP as [P1 [P2 [P3 P4]]].
+      apply sweeps_safe with (timeout := timeout); auto.
+      * exact (rc_lists _ _ _ _ _ RC).
+      * exact (rc_manifests _ _ _ _ _ RC).
+      * exact (rc_data _ _ _ _ _ RC).
+Qed.
+
+Theorem gc_safe_all_faults : forall tp grace now timeout o snaps st,
+  wf_store snaps st -> gc_safe_spec now grace timeout snaps st (gc_run tp grace now timeout o snaps st).
+Proof. intros tp grace now timeout o snaps st WF. unfold gc_run. exact (gc_safe_from MARKERS_FIRST tp grace now timeout o snaps (mkG 0 st []) WF). Qed.
 
 Theorem gc_safe_nofault : forall (tp : string) (grace now timeout : Z) (snaps : list string) (st : store),
   wf_store snaps st ->
